@@ -1,18 +1,27 @@
 """C16 - DeepSearch reports exactly the matching locations.
 
-proof:           coq/theories/Search/{SearchModel,SearchSpec,SearchProofs}.v, Properties/C16.v
+proof:           coq/theories/Search/{SearchModel,SearchSpec,SearchProofs,SearchExtract,SearchObjects}.v, Properties/C16.v
 correspondence:  DeepSearch(obj, item, **mode) on generated nested objects x items x modes,
                  compared IN FULL (matched_paths / matched_values in the implementation's
-                 own insertion order, with values at verbose_level 2, or `raise` for a
+                 own insertion order, with values at verbose_level 2, the `unprocessed` list, or `raise` for a
                  TypeError) with the Gallina model evaluated inside Coq.  The regular
-                 expression engine, str(bytes) and str(compiled pattern) enter the model as
-                 oracle tables computed here with Python's `re` / `str`.
+                 expression engine, str.lower() on non-ASCII text, str(bytes) and str(compiled pattern) enter
+                 the model as oracle tables computed here with Python's `re` / `str`.
+                 Named tuples (tuples: inside the property's quantifier) run in the property's own streams; class
+                 instances (__dict__, __slots__, class attributes, bound methods) and objects whose attributes cannot be
+                 read (`unprocessed`) run as the extension stream "Obj" (core.Ctx.extension: same model and theorems,
+                 recorded in the evidence file, never a violation: the property's text does not speak about them).
 grep front end:  ONE grep(item, **options) instance used with | two or three times (same / different objects);
                  every use must equal DeepSearch(obj, item, **options) and the model (a pure function).
 direct oracle:   an independent reference search written from the documentation (enumerate
                  every location with its ancestors, filter by exclusion and by the matching
-                 mode), `deepdiff.extract` on every reported path, deepcopy comparison of the
-                 searched object before / after.
+                 mode; case folding = str.lower() of the item and of the searched text alike), `deepdiff.extract`
+                 on every reported path, comparison of the searched object before / after.
+inputs:          about 10 % of the objects hold ONE container at two positions (shared sub-object; the model gets the
+                 unfolded tree; failing cases carry a pickle so that the replay rebuilds the sharing); the exclusion
+                 arguments are passed as list / tuple / set / frozenset and with a pre-compiled first regex; the item may be
+                 a pre-compiled pattern (with flags); verbose_level in {0,1,2,3}; strings include characters on which
+                 lower() / casefold() / upper().lower() differ (sharp s, final sigma, dotted capital I, ligatures).
 """
 import ast
 import base64
@@ -28,18 +37,24 @@ from harness import values as V
 
 THEOREM_FILE = "Properties/C16.v"
 COQCHK = ["Properties.C16"]
-RULE = ("random nested objects (dict/list/tuple/set/frozenset/str/int/bool/half-integer float/None, a few bytes; depth<=4) x items "
+RULE = ("random nested objects (dict/list/tuple/named tuple/set/frozenset/str (ASCII and non-ASCII case pairs)/int/bool/half-integer "
+        "float/None, a few bytes; depth<=4; a shared sub-container in about 9 % of the cases; extension stream: class instances, "
+        "bound methods, unreadable objects) x items "
         "drawn from the object's own leaves, substrings of its strings, its keys, its path texts, absent values, numbers as text, "
-        "regular expressions x case_sensitive x match_string x use_regexp x strict_checking x verbose_level{1,2} x "
-        "exclude_paths/exclude_regex_paths/exclude_types; thorough adds an exhaustive small universe; a case is non-trivial when "
+        "regular expressions (str, bytes, pre-compiled with flags) x case_sensitive x match_string x use_regexp x strict_checking x "
+        "verbose_level{0,1,2,3} x exclude_paths/exclude_regex_paths/exclude_types (as list/tuple/set/frozenset/pre-compiled); thorough adds an exhaustive small universe; a case is non-trivial when "
         "something is reported or the constructor raises; distinct = distinct (object, item, options)")
 TRUSTED = ["regular expressions (the compiled item and exclude_regex_paths), str(bytes) and str(compiled pattern) are oracles: "
            "Section variables of the Coq development, fed at run time with truth tables computed by Python",
-           "str.lower() is modelled for ASCII; generated strings are restricted to those on which Python's lower() is the ASCII one",
-           "named tuples, custom objects, ip ranges, datetimes, Decimal, numpy are outside the value universe (only the dict/list/tuple/"
-           "set/str/bytes/number/None branches of __search are modelled); cyclic objects are outside the model (parents_ids)"]
+           "str.lower() is an oracle too (Section variable on whole strings: Unicode lower-casing is context dependent); the harness "
+           "sends Python's answer for every str of the case on which it differs from the ASCII rule; bytes.lower() is the ASCII rule",
+           "the attribute list of an instance ([(n, getattr(obj, n)) for n in dir(obj) if not dunder]) is an input of the model; the "
+           "harness computes it from the class definitions of its own test classes (sorted names), not with dir()",
+           "ip ranges, datetimes, Decimal, numpy, user classes with __eq__ / __iter__ / __getattr__ are outside the universe; cyclic "
+           "objects are outside the model (parents_ids: the model is a tree; shared sub-objects are unfolded)"]
 ASSUMPTIONS = ["floats are half-integers of small magnitude (repr without exponent); no nan/inf/-0.0",
-               "the item is an atom (None, bool, int, float, str, bytes); regular expressions given as items are valid",
+               "the item is a value of the shared universe (atom or plain container) or a pre-compiled pattern; regular expressions "
+               "given as items are valid (re.error of an invalid pattern is outside the model)",
                "the searched object is tree shaped (no container reachable from itself)"]
 
 # ---------------------------------------------------------------------------
@@ -323,11 +338,16 @@ def ref_search(obj, item, kw, emulate=()):
     ex_rx = [re.compile(p) for p in kw.get("exclude_regex_paths", ())]
     ex_types = tuple(kw.get("exclude_types", ()))
 
+    compiled = isinstance(item, re.Pattern)      # a pre-compiled pattern as the item (use_regexp=True): searched as it is
+    if compiled and not rx:
+        raise ValueError("a compiled pattern is an item only together with use_regexp=True")
     is_text_item = isinstance(item, (str, bytes))
     folding = is_text_item and not cs_arg
     fold = (lambda s: s.lower()) if folding else (lambda s: s)
     if is_text_item:
         needle = fold(item)
+    elif compiled:
+        needle = item.pattern
     elif isinstance(item, NUMS) and not strict:
         needle = str(item)
     else:
@@ -336,7 +356,9 @@ def ref_search(obj, item, kw, emulate=()):
     if rx:
         if needle is None:
             return ("raise",)               # documented: "not usable for regex" TypeError
-        if "K16c" in E:
+        if compiled:
+            pattern = item
+        elif "K16c" in E:
             pattern = re.compile(needle)
         else:
             src = item if is_text_item else needle
@@ -662,6 +684,10 @@ def gen_item(rng, obj, locs, use_regexp):
             return rng.choice(nums)
         if r < 0.53:
             return rng.choice([b"a", b"1", b"."])
+        if r < 0.6:      # a pre-compiled pattern, with or without flags (re.compile returns it unchanged)
+            if rng.random() < 0.15:
+                return re.compile(rng.choice([b"a", b"A.", b"\\d"]), rng.choice([0, re.I]))
+            return re.compile(rng.choice(PATTERNS + ["ab", "a b", "^root"]), rng.choice([0, 0, re.I, re.I | re.S, re.X]))
         return rng.choice(PATTERNS)
     conts = [tuple(v) if is_named(v) else v for _, v, _ in locs[1:] if isinstance(v, CONTAINERS)]
     conts = [v for v in conts if is_plain(v)]
@@ -703,7 +729,7 @@ def gen_item(rng, obj, locs, use_regexp):
 
 def gen_cfg(rng, locs):
     texts = [path_text(s) for s, _, _ in locs]
-    cfg = {"verbose_level": rng.choice([1, 2, 2]),
+    cfg = {"verbose_level": rng.choice([1, 2, 2, 2, 1, 2, 0, 3]),
            "case_sensitive": rng.random() < 0.4,
            "match_string": rng.random() < 0.25,
            "use_regexp": rng.random() < 0.25,
@@ -765,11 +791,16 @@ def model_case(obj, item, cfg, locs):
     # compiled item
     re_true, re_text = [], ""
     eff = effective_item(item, cfg)
-    if cfg["use_regexp"] and isinstance(eff, (str, bytes)):
+    cs_model = cfg["case_sensitive"]
+    if isinstance(item, re.Pattern):
+        # the model gets the pattern's source as a case sensitive item (a non-string item forces case_sensitive=True);
+        # the oracle table is computed with the compiled pattern itself, flags included
+        eff, item, cs_model = item, item.pattern, True
+    if cfg["use_regexp"] and isinstance(eff, (str, bytes, re.Pattern)):
         pat = re.compile(eff)
         re_text = str(pat)
         subjects = set()
-        if isinstance(eff, str):
+        if isinstance(pat.pattern, str):
             subjects.update(fold(x) for x in leaves if isinstance(x, str))
             subjects.update(str(x) for x in leaves if isinstance(x, NUMS))
             subjects.update(fold(t) for t in texts)
@@ -782,7 +813,7 @@ def model_case(obj, item, cfg, locs):
         rxs = [re.compile(p) for p in cfg["exclude_regex_paths"]]
         ex_true = sorted(set(t for t in texts if any(r.search(t) for r in rxs)))
     c = "(mkConfig %s %s %s %s [%s] [%s])" % (
-        core.coq_bool(cfg["case_sensitive"]), core.coq_bool(cfg["match_string"]), core.coq_bool(cfg["use_regexp"]),
+        core.coq_bool(cs_model), core.coq_bool(cfg["match_string"]), core.coq_bool(cfg["use_regexp"]),
         core.coq_bool(cfg["strict_checking"]), "; ".join(core.coq_pystr(p) for p in cfg["exclude_paths"]),
         "; ".join(coq_xty(t) for t in cfg["exclude_types"]))
     if isinstance(item, CONTAINERS):
@@ -1171,6 +1202,7 @@ def witnesses(ctx):
             ([{"İb": "İb"}, "i̇B", {"ﬁx": ["FIX", "ﬁX"]}, ("aΣ", "aσ", "aς", "AΣ b")], "İb", {}),
             ([{"İb": "İb"}, "i̇B", {"ﬁx": ["FIX", "ﬁX"]}, ("aΣ", "aσ", "aς", "AΣ b")], "aΣ", {}),
             ([{"İb": "İb"}, "i̇B", {"ﬁx": ["FIX", "ﬁX"]}, ("aΣ", "aσ", "aς", "AΣ b")], "ﬁX", {"case_sensitive": True}),
+            ({"a']['b": 'x', 'a': {'b': 'xy'}}, 'x', {}),      # two locations, one text (Coq: result_dict_refuted)
             (["long somewhere", "string", 0, "somewhere great!"], "somewhere", {}),
             (["something somewhere", {"long": "somewhere", "string": 2, 0: 0, "somewhere": "around"}], "somewhere", {}),
             ({"long": "somewhere", "num": 1123456, 0: 0, "somewhere": "around"}, "1234", {"use_regexp": True, "strict_checking": False}),
@@ -1324,7 +1356,7 @@ def run(ctx):
 
 
 def _eval(text):
-    return eval(text, {"__builtins__": {}}, dict({"frozenset": frozenset, "set": set}, **CLASSES, **NAMED))
+    return eval(text, {"__builtins__": {}}, dict({"frozenset": frozenset, "set": set, "re": re}, **CLASSES, **NAMED))
 
 
 def replay(ctx, data):
